@@ -144,22 +144,7 @@ def run_exact(res, tier, seed, replay, clauses, algos='signed,fvs,iso', types='d
         res.cov['rule'] = ('inputs: TLC-enumerated small graphs (two insertion orders), seeded random graphs n<=10 m<=16 with '
                            'tie-heavy weight sets, dyadic weights (den 4), dense graphs, structured families; each run through '
                            + algos + ' x ' + types + '; non-trivial = distinct weighted graph with cycle-space dimension >= 2')
-        with open(trace) as f:
-            buf = []
-            for ln in f:
-                buf.append(json.loads(ln))
-                if len(buf) >= 400:
-                    break
-        # one complete sample call with csd >= 2
-        cur = []
-        for e in buf:
-            if e['e'] == 'Call':
-                if len(cur) >= 4:
-                    break
-                cur = [e]
-            else:
-                cur.append(e)
-        res.sample(cur[:8])
+        res.sample(vlib.sample_call(trace))
         judge(res, v, clauses)
     finally:
         shutil.rmtree(wd, ignore_errors=True)
